@@ -1147,6 +1147,8 @@ struct Exec<'a> {
     last_res: Vec<Option<Res>>,
     /// frames returned by the prologue calls (None: not a successful get)
     pre_res: Vec<Option<usize>>,
+    /// blocks returned by upper gets with the class they reported
+    got: Vec<(usize, usize, u8)>,
 }
 
 fn overlap(a: (usize, usize), b: (usize, usize)) -> bool {
@@ -1181,6 +1183,7 @@ impl<'a> Exec<'a> {
             text: String::with_capacity(4096),
             last_res: vec![None; n],
             pre_res: Vec::new(),
+            got: Vec::new(),
         };
         let _ = writeln!(ex.text, "RUN {run} scenario={} mode={mode}", scn.name);
         let _ = writeln!(
@@ -1260,6 +1263,9 @@ impl<'a> Exec<'a> {
         match (c, r) {
             (CallSpec::Get(_, o) | CallSpec::GetAt(_, o), Res::Frame(f)) | (CallSpec::UGet { order: o, .. }, Res::Frame2(f, _)) => {
                 let b = (*f, o);
+                if let Res::Frame2(_, cl) = r {
+                    self.got.push((*f, o, *cl));
+                }
                 if f % (1 << o) != 0 {
                     self.hfail(format!("misaligned block: {} -> frame {f} order {o}", call_text(c)));
                 }
@@ -1577,11 +1583,48 @@ impl<'a> Exec<'a> {
         let st = self.alloc.stats();
         let _ = writeln!(self.text, "POST stats free_frames={} free_huge={} free_trees={}", st.free_frames, st.free_huge, st.free_trees);
         let _ = writeln!(self.text, "POSTEND {}{}", dump_state(self.env.bufs.lower, self.scn.frames), self.dump_upper());
+        // free EVERY block that is still held (prologue, scheduled part, probes), without a slot, with the class the
+        // block was allocated with: counters that are too high trip the asserts of Tree::put only now
+        // (a drain first: the probe gets may have reserved a tree, its slot would absorb an excess)
+        let mut blocks = self.held.clone();
+        blocks.sort();
+        let mut all_ok = self.post_call(CallSpec::UDrain);
+        for (f, o) in blocks {
+            let class = self.got.iter().rev().find(|&&(bf, bo, _)| bf <= f && f < bf + (1 << bo)).map(|x| x.2).unwrap_or(c0);
+            let c = CallSpec::UPut { frame: f, order: o, class, local: None };
+            if !all_ok {
+                break;
+            }
+            self.take_held(f, o);
+            all_ok = self.post_call(c);
+        }
+        if all_ok {
+            let st = self.alloc.stats();
+            let ts = self.alloc.tree_stats();
+            let _ = writeln!(self.text, "POST stats free_frames={} free_huge={} free_trees={}", st.free_frames, st.free_huge, st.free_trees);
+            let _ = writeln!(self.text, "POST tree_stats free_frames={} free_trees={}", ts.free_frames, ts.free_trees);
+            let q = QUIET.with(|t| t.replace(true));
+            let alloc: &LLFree = &self.alloc;
+            let v = catch_unwind(AssertUnwindSafe(|| alloc.validate()));
+            QUIET.with(|t| t.set(q));
+            match v {
+                Ok(()) => {
+                    let _ = writeln!(self.text, "POST validate ok");
+                }
+                Err(_) => {
+                    let m = PANIC_MSG.with(|m| m.borrow().clone());
+                    let _ = writeln!(self.text, "POST validate panic {m}");
+                }
+            }
+            let _ = writeln!(self.text, "POSTEND {}{}", dump_state(self.env.bufs.lower, self.scn.frames), self.dump_upper());
+        }
     }
-    fn post_call(&mut self, c: CallSpec) {
+    /// returns false if the call panicked
+    fn post_call(&mut self, c: CallSpec) -> bool {
         let r = exec_caught(&self.alloc, c);
         let _ = writeln!(self.text, "POST {} {}", call_text(c), r.text());
         self.account(c, &r);
+        !matches!(r, Res::Panic(_))
     }
 
     fn finish(mut self) -> Done {
